@@ -34,7 +34,9 @@ func TestMain(m *testing.M) {
 		Rule: "2-5 generated read-write transaction programs (point gets incl. not-found/deleted/expired with every filter combination, GetWithPrefix with exclusion key, key readers asc/desc with seek/end bounds, " +
 			"offset, filters, Reset, early stop, ReadBetween, writes while a reader is open, MarkPrefixScanned, Set, Delete, SetTransient; Commit/AsyncCommit/Cancel; snapshot policies any/last-precommitted/fixed/half) " +
 			"over 8-16 hot keys of one store (default index, or two prefixed indexes), interleaved step by step by a generated schedule with write-only committers, index flushes and read-only snapshot scanners; " +
-			"generated rounds run 2-3 steps (commits, reads, scans) on concurrent goroutines. Oracle: serial replay in header-id order on the KV-history model. " +
+			"generated rounds run 2-3 steps (commits, reads, scans) on concurrent goroutines; schedule modes: free interleaving, all programs commit in one concurrent round, programs one after the other (stale snapshots only), " +
+			"one read per program then write-only committers then commit; optional lagging indexer (non-adaptive bulk waiting 20 ms). Oracle: serial replay in header-id order on the KV-history model " +
+			"(every logged read of a committed tx vs state(id-1)+own writes; tx log = write sets of successful commits only; final index content; read-only scanners see state(t) for some t). " +
 			"Non-trivial: >=2 read-write txs with intersecting key footprints reached Commit, and at least one of them committed successfully with >=1 logged read after another transaction committed a write " +
 			"into its footprint between its first operation and its commit; distinct by hash of (configuration, executed schedule with all operation parameters).",
 		Assumptions: []string{
@@ -50,6 +52,9 @@ func TestMain(m *testing.M) {
 			"mapped (secondary) indexes are not generated: only identity indexes (default or prefixed); C04 covers the mapping",
 			"MarkPrefixScanned returns nothing to compare: if the tx commits, the (key, writer tx) tuples of the range at state(id-1) must equal those of state(t) for some t not later than the last precommitted tx observed right after the call",
 			"a step (commit, read) that does not return within 120 s is reported as a failure (all operations take milliseconds)",
+			"known findings (pinned probes, excluded while they fire, counted): K05a a reader pass is continued until it returns a committed entry or the end, so that no pass ends with own writes; " +
+				"K05b a GetWithPrefix answered by an own write that hides a smaller committed key is not failed; K05c in two-index cases a stale read on the index that is not the first one the tx touched is not failed when the tx wrote into the first index and nothing committed during its life",
+			"not implemented from the design: fsim delays on the indexer's reads (the recorder hooks writes only; lag comes from the bulk wait and from reused dumped roots), mapped indexes, UnsafeMVCC",
 		},
 		Probes: []vk.Probe{
 			{ID: kReaderOwnTail, Present: probeReaderOwnTail},
